@@ -20,6 +20,8 @@ CHECKS = {
          "Lean 4 proof (case analysis + field arithmetic) + model/implementation correspondence shared with C01"),
  "C04": ("Theorems over the per-step model of ShaftLine.do_power_balance for arbitrary engine lists, loads and optional PTI/PTO: engines + PTI/PTO shaft power = loads whenever running engines exist where engine power is needed (either sign of PTI/PTO power), running engines at one common fraction, stopped engines at zero, full-PTI: PTI carries the whole load and every engine delivers zero, lines independent, status after the call, and the exact imbalance when no engine is available. Correspondence on random mechanical plants incl. geared and dual-fuel engines.",
          "Lean 4 proof (case analysis on full-PTI / available power + arithmetic) + model/implementation correspondence on random shaft-line plants"),
+ "C05": ("Theorems over the per-step model of HybridPropulsionSystem.do_power_balance_calculation (electric; shaft; electric again if any step is full-PTI) for arbitrary machine conversions f (shaft->electric) and g (electric->shaft): the final electrical / shaft powers, the exact difference between the power each balance was computed with and the final power (zero on the side computed last, the machine's round-trip error on the other), hence both balances within any round-trip accuracy eps; the two powers are a conversion pair of the machine (differ by its loss only); full PTI: electrical = load / efficiency >= load; construction accepted iff both sides list the same machines. PARTIAL: eps <= 0.5 % of rating is a hypothesis (C06 proves 1 %); it is validated on every case.",
+         "Lean 4 proof (case analysis over the pass structure, parametric in the machine) + correspondence on hybrid plants with conversion oracles read from the real PTI/PTO"),
  "C06": ("Theorems for an arbitrary efficiency characteristic: efficiency in use within [1 %,100 %]; forward formula: supplied x efficiency = delivered and supply >= delivery in both flow directions; zero flow gives zero; with an exact inverse no energy is created in reverse flow and both round trips are exact (also for electric machines in every role); array dispatch = scalar dispatch given inv 0 = 0; serial train efficiency = product of clamped stage efficiencies at their own loads, within (0,1]; zero residual of the strict balance = exact round trip. PARTIAL: for the interpolated inverse only a 1 % (sample spacing) bound is proved under a knot-exact/monotone contract; the 0.5 % and 1e-6 figures depend on scipy and are validated per case on the load range the curve covers; outside it they fail (known finding D16).",
          "Lean 4 proof (order/field arithmetic, parametric in the curve) + correspondence with curve and inverse oracles read from the real component"),
  "C07": ("Theorems for arbitrary consumption / efficiency / split curves: engine fuel = bsfc(load) x P / 3.6e6, pilot fuel separate with its own curve, zero at zero power, non-negative for non-negative curve and power, constant curve = linear; genset and geared engine: engine power x efficiency at that load = delivered power (and >= it); fuel cell: (P/eta)/LHV/1e6; modules: system = N x module at 1/N of the cell-side power (and = one module at full power for a constant cell efficiency); COGAS: fuel formula, gas = share x P, gas + steam = P; running hours = sum of intervals with non-zero output. Correspondence with pull-based curve oracles through generator -> engine chains.",
